@@ -164,6 +164,12 @@ func typeName(t types.Type) string {
 	case *types.Slice:
 		return "[]" + typeName(x.Elem())
 	case *types.Basic:
+		switch x.Kind() {
+		case types.Uint8:
+			return "uint8" // byte
+		case types.Int32:
+			return "int32" // rune
+		}
 		return x.Name()
 	case *types.Map:
 		return "map[" + typeName(x.Key()) + "]" + typeName(x.Elem())
@@ -424,6 +430,7 @@ type State struct {
 	LockSnaps []lockSnap
 	LoopSnaps []loopSnap
 	CancelFns map[string]*Term
+	GhostLets map[string]*Val
 	FreshList []*Term
 	LiveIters []*RangeIter
 	Epoch   int // bumped when "everything" is havocked, so later-materialised families are fresh too
@@ -449,6 +456,7 @@ func (s *State) Clone() *State {
 		LockSnaps: s.LockSnaps[:len(s.LockSnaps):len(s.LockSnaps)],
 		LoopSnaps: s.LoopSnaps[:len(s.LoopSnaps):len(s.LoopSnaps)],
 		CancelFns: s.CancelFns,
+		GhostLets: s.GhostLets,
 		FreshList: s.FreshList[:len(s.FreshList):len(s.FreshList)],
 		LiveIters: s.LiveIters[:len(s.LiveIters):len(s.LiveIters)],
 	}
@@ -585,6 +593,7 @@ func (s *State) loadElem(elem types.Type, base, idx *Term) *Val {
 	leaves(elem, "", &ls)
 	ts := make([]*Term, len(ls))
 	for i, l := range ls {
+		noteRefLeaf(sliceHeapKey(elem, l.Path), l)
 		h := s.heapGet(sliceHeapKey(elem, l.Path), ArrSort(SInt, ArrSort(SInt, l.Sort)))
 		ts[i] = Select(Select(h, base), idx)
 	}
@@ -607,7 +616,7 @@ func (s *State) storeElem(elem types.Type, base, idx *Term, v *Val) {
 // maps: M$<K>$<V>$has : Array Int (Array K Bool); M$..$val$<leaf> ; Mlen : Array Int Int
 func mapKeys(mt *types.Map) (hasKey string, lenKey string, valPrefix string) {
 	base := "M$" + typeName(mt.Key()) + "$" + typeName(mt.Elem())
-	return base + "$has", "M$len", base + "$val"
+	return base + "$has", base + "$len", base + "$val"
 }
 
 func (s *State) mapHas(mt *types.Map, m, k *Term) *Term {
@@ -616,8 +625,9 @@ func (s *State) mapHas(mt *types.Map, m, k *Term) *Term {
 	return Select(Select(h, m), k)
 }
 
-func (s *State) mapLen(m *Term) *Term {
-	h := s.heapGet("M$len", ArrSort(SInt, SInt))
+func (s *State) mapLen(mt *types.Map, m *Term) *Term {
+	_, lk, _ := mapKeys(mt)
+	h := s.heapGet(lk, ArrSort(SInt, SInt))
 	return Select(h, m)
 }
 
@@ -628,6 +638,7 @@ func (s *State) mapVal(mt *types.Map, m, k *Term) *Val {
 	ts := make([]*Term, len(ls))
 	ks := leafSort(mt.Key())
 	for i, l := range ls {
+		noteRefLeaf(vp+"$"+l.Path, l)
 		h := s.heapGet(vp+"$"+l.Path, ArrSort(SInt, ArrSort(ks, l.Sort)))
 		ts[i] = Select(Select(h, m), k)
 	}
@@ -660,8 +671,9 @@ func (s *State) mapStore(mt *types.Map, m, k *Term, v *Val) {
 	h := s.heapGet(hk, ArrSort(SInt, ArrSort(ks, SBool)))
 	had := Select(Select(h, m), k)
 	s.Heap[hk] = Store(h, m, Store(Select(h, m), k, True))
-	lh := s.heapGet("M$len", ArrSort(SInt, SInt))
-	s.Heap["M$len"] = Store(lh, m, Ite(had, Select(lh, m), Add(Select(lh, m), IntLit(1))))
+	_, lk, _ := mapKeys(mt)
+	lh := s.heapGet(lk, ArrSort(SInt, SInt))
+	s.Heap[lk] = Store(lh, m, Ite(had, Select(lh, m), Add(Select(lh, m), IntLit(1))))
 	var ls []leafInfo
 	leaves(mt.Elem(), "", &ls)
 	var ts []*Term
@@ -679,8 +691,9 @@ func (s *State) mapDelete(mt *types.Map, m, k *Term) {
 	h := s.heapGet(hk, ArrSort(SInt, ArrSort(ks, SBool)))
 	had := And(Neq(m, IntLit(0)), Select(Select(h, m), k))
 	s.Heap[hk] = Store(h, m, Store(Select(h, m), k, False))
-	lh := s.heapGet("M$len", ArrSort(SInt, SInt))
-	s.Heap["M$len"] = Store(lh, m, Ite(had, Sub(Select(lh, m), IntLit(1)), Select(lh, m)))
+	_, lk, _ := mapKeys(mt)
+	lh := s.heapGet(lk, ArrSort(SInt, SInt))
+	s.Heap[lk] = Store(lh, m, Ite(had, Sub(Select(lh, m), IntLit(1)), Select(lh, m)))
 }
 
 // ghost scalar/array families
@@ -712,6 +725,24 @@ func (s *State) newRef(kind string) *Term {
 	s.setGhostArr("alloc", Store(al, r, True))
 	s.FreshRefs[r.Op] = true
 	s.FreshList = append(s.FreshList, r)
+	// a fresh reference is stored nowhere in the current heap
+	for _, fam := range s.heapNames() {
+		if !heapRefFam[fam] {
+			continue
+		}
+		h := s.Heap[fam]
+		switch {
+		case h.Sort == ArrSort(SInt, SInt):
+			x := BoundVar("x", SInt)
+			s.Assume(Forall([]*Term{x}, Neq(Select(h, x), r)))
+		case strings.HasPrefix(string(h.Sort), "(Array Int (Array ") && strings.HasSuffix(string(h.Sort), " Int))"):
+			_, inner := arrParts(h.Sort)
+			ks, _ := arrParts(inner)
+			x := BoundVar("x", SInt)
+			k := BoundVar("k", ks)
+			s.Assume(Forall([]*Term{x, k}, Neq(Select(Select(h, x), k), r)))
+		}
+	}
 	return r
 }
 
